@@ -201,13 +201,15 @@ def only_present(contracts, present, amap):
 
 def jobs(tier):
     L, hdr, body = lower()
-    cap = 4 if tier == 'quick' else 5
+    cap_tier = 4 if tier == 'quick' else 5
+    CAP4 = ('Queue_int__assign',)   # two rings + an inlined EnsureSizeAux: capacity 5 runs the SAT solver out of memory (12 GB); stays at 4 in both tiers
     contracts = open(os.path.join(VERIF, 'contracts/queue.h')).read()
     import re
     J = []
     lowered = set(L.fname(L.byid[f]) for f in L.order)
     SLOW = ('Queue_int__Normalize', 'Queue_int__InsertItemAt__2', 'Queue_int__SwapContents')
     for alias, mangled, decls, args, loops in H:
+        cap = 4 if alias in CAP4 else cap_tier
         if alias in SLOW and not os.environ.get('MV_SLOW'):
             continue   # contract written; the solver needs > 5 min / > 12 GB at capacity 4 (see DESIGN change log)
         if mangled not in lowered:
